@@ -28,7 +28,7 @@ OtherNul   == {<<>>, <<2>>, <<2, 1>>, <<2, 0>>, <<1, 0, 2>>, <<2, 2, 1>>}
 OtherNoNul == {<<>>, <<2>>, <<2, 1>>, <<2, 2, 1>>}
 OtherOne   == {<<2, 1>>}
 AllClasses == {"ctor", "pair", "assign", "access", "size", "sub", "insert", "erase", "append", "compare", "replace",
-               "find", "rel", "concat", "io"}
+               "find", "rel", "concat", "io", "alias"}
 AllClassesOv == AllClasses \cup {"overlay"}
 Unary      == AllClasses \ {"pair"}
 UnaryOv    == Unary \cup {"overlay"}
